@@ -325,6 +325,37 @@ def gen_state_equal(a, b):
     return a == b
 
 
+class ArgBox:
+    """the argument arrays of a case as a numerical caller holds them: float64 ndarrays that are handed to chi
+    as they are, reused for every further call of the case, and compared with their original contents after
+    every call (a sampler that writes into its arguments changes what the next call means)"""
+
+    def __init__(self, **named):
+        self.arr = {k: (None if v is None else np.array(v, float)) for k, v in named.items()}
+        self.orig = {k: (None if v is None else v.copy()) for k, v in self.arr.items()}
+
+    def __getitem__(self, k):
+        return self.arr[k]
+
+    def changed(self):
+        out = []
+        for k, v in self.arr.items():
+            if v is None:
+                continue
+            o = self.orig[k]
+            if v.shape != o.shape or not np.array_equal(v, o, equal_nan=True):
+                out.append(k)
+        return out
+
+    def check(self, ctx, tag, inp):
+        ch = self.changed()
+        ctx.spec(tag, not ch, inp, {'arguments_changed_by_the_call': ch,
+                                    'now': {k: self.arr[k] for k in ch}, 'before': {k: self.orig[k] for k in ch}})
+        for k in ch:                       # go on with the original values
+            self.arr[k] = self.orig[k].copy()
+        return not ch
+
+
 def raised_in_chi(exc):
     """did the exception pass through chi's own source (then it is chi's behaviour, not a harness fault)?"""
     import traceback
